@@ -25,10 +25,11 @@ const (
 	EvCancel
 	EvWaitCall
 	EvWaitRet
-	EvJobCancel // the own context of job J was cancelled
+	EvJobCancel  // the own context of job J was cancelled
+	EvWaitCancel // the separate context given to Wait was cancelled
 )
 
-var evNames = [...]string{"", "enqueue-call", "enqueue-ret", "start", "end", "cancel", "wait-call", "wait-ret", "job-context-cancelled"}
+var evNames = [...]string{"", "enqueue-call", "enqueue-ret", "start", "end", "cancel", "wait-call", "wait-ret", "job-context-cancelled", "wait-context-cancelled"}
 
 // Ev is one entry of the harness history. Seq is a global sequence number
 // handed out while exactly one goroutine is running.
@@ -80,6 +81,7 @@ type schedRun struct {
 	// per-job contexts (JobD.Ctx != CtxShared): Done channel and cancel function, by job
 	jdone   []<-chan struct{}
 	jcancel []context.CancelFunc
+	wcancel context.CancelFunc // cancels Wait's own context (SchedD.WaitCtx)
 	// jpub mirrors the synchronisation a user needs to hand a job's cancel
 	// function to another job's body (add after creation, load before use)
 	jpub atomic.Int32
@@ -127,10 +129,11 @@ func (r *runner) log(kind, s, j int) int {
 }
 
 // flag and counter indices
-func flagReturned(s int) int { return s }
-func flagCtxReady(s int) int { return 16 + s }
-func ctrEnqDone(s int) int   { return s }
-func ctrBarrier(s int) int   { return 16 + s }
+func flagReturned(s int) int     { return s }
+func flagCtxReady(s int) int     { return 16 + s }
+func flagWaitCtxReady(s int) int { return 32 + s }
+func ctrEnqDone(s int) int       { return s }
+func ctrBarrier(s int) int       { return 16 + s }
 
 //go:norace
 func (sr *schedRun) bodyStart(r *runner, s, j int, ctx context.Context) {
@@ -183,6 +186,12 @@ func (sr *schedRun) setCtx(ctx context.Context, cancel context.CancelFunc) {
 //go:norace
 func (sr *schedRun) getCtx() (context.Context, context.CancelFunc) { return sr.ctx, sr.cancel }
 
+//go:norace
+func (sr *schedRun) setWaitCancel(c context.CancelFunc) { sr.wcancel = c }
+
+//go:norace
+func (sr *schedRun) getWaitCancel() context.CancelFunc { return sr.wcancel }
+
 // jobCancel returns the cancel function of job k's own context once the
 // caller has created it (nil before).
 //
@@ -204,7 +213,12 @@ type jobErr struct {
 	wraps error // a context error of the job's own making (private timeout), or nil
 }
 
-func (e *jobErr) Error() string { return fmt.Sprintf("job s%d/j%d failed", e.s, e.j) }
+func (e *jobErr) Error() string {
+	if e.j < 0 {
+		return fmt.Sprintf("not found (s%d; one sentinel for every failing job)", e.s)
+	}
+	return fmt.Sprintf("job s%d/j%d failed", e.s, e.j)
+}
 func (e *jobErr) Unwrap() error { return e.wraps }
 
 func (r *runner) body(si, ji int) func(context.Context) error {
@@ -299,6 +313,7 @@ func (r *runner) caller(si int) {
 	}
 	sched := cfg.New()
 	handles := make([]*scheduler.ScheduledJob, len(sd.Jobs))
+	depSlices := make([][]*scheduler.ScheduledJob, len(sd.Jobs))
 	// publication of the per-job cancel functions to the job bodies that use
 	// them (the user would hand them over through something synchronised)
 	jpub := &sr.jpub
@@ -309,9 +324,18 @@ func (r *runner) caller(si int) {
 				continue
 			}
 			var deps []*scheduler.ScheduledJob
-			for _, k := range jd.Deps {
-				deps = append(deps, handles[k])
+			if k := jd.SameDeps - 1; k >= 0 && k < j && depSlices[k] != nil {
+				if j%2 == 0 {
+					deps = depSlices[k] // the same slice object again
+				} else {
+					deps = append(deps, depSlices[k]...) // copied from a slice that was passed to Enqueue before: the caller reads it again
+				}
+			} else {
+				for _, k := range jd.Deps {
+					deps = append(deps, handles[k])
+				}
 			}
+			depSlices[j] = deps
 			sim.Yield(engine.HsMisc)
 			if sim.Aborted() {
 				return
@@ -360,9 +384,18 @@ func (r *runner) caller(si int) {
 	if sim.Aborted() {
 		return // the run is over (budget, invalid, or quiescent without us): do not touch the scheduler
 	}
+	wctx := ctx
+	if sd.WaitCtx != 0 {
+		var wcancel context.CancelFunc
+		wctx, wcancel = context.WithCancel(base)
+		defer wcancel()
+		sr.setWaitCancel(wcancel)
+		sr.ctxPub.Store(true)
+		sim.SetFlag(flagWaitCtxReady(si))
+	}
 	r.log(EvWaitCall, si, -1)
-	err := sched.Wait(ctx)
-	ctxErr := ctx.Err()
+	err := sched.Wait(wctx)
+	ctxErr := wctx.Err()
 	sim.Yield(engine.HsRet)
 	if sim.Aborted() {
 		return
@@ -392,6 +425,25 @@ func (r *runner) canceller(si int) {
 	cancel()
 }
 
+// waitCanceller cancels the separate context given to Wait.
+func (r *runner) waitCanceller(si int) {
+	sim := r.sim
+	sr := r.res.SR[si]
+	sim.Hold(engine.HoldFlag, flagWaitCtxReady(si), 0)
+	_ = sr.ctxPub.Load()
+	for k := 0; k < sr.d.WaitDelay; k++ {
+		sim.Yield(engine.HsMisc)
+		if sim.Flag(flagReturned(si)) {
+			break
+		}
+	}
+	if sim.Aborted() {
+		return
+	}
+	r.log(EvWaitCancel, si, -1)
+	sr.getWaitCancel()()
+}
+
 // Exec performs one simulated run of d. If d.Choices is non-nil (even empty)
 // and replay is true the schedule is replayed from it.
 func Exec(t *testing.T, d *Desc, replay bool, keepTrace bool, states map[uint64]struct{}) *Result {
@@ -403,7 +455,12 @@ func Exec(t *testing.T, d *Desc, replay bool, keepTrace bool, states map[uint64]
 		sd := &d.Scheds[i]
 		sr := &schedRun{d: sd, limit: d.Limit(sd), token: new(int), states: make([]stateRep, 4096),
 			jdone: make([]<-chan struct{}, len(sd.Jobs)), jcancel: make([]context.CancelFunc, len(sd.Jobs))}
+		shared := &jobErr{s: i, j: -1}
 		for j := range sd.Jobs {
+			if sd.SharedErr {
+				sr.errs = append(sr.errs, shared)
+				continue
+			}
 			je := &jobErr{s: i, j: j}
 			switch sd.Jobs[j].ErrWrap {
 			case 1:
@@ -443,6 +500,9 @@ func Exec(t *testing.T, d *Desc, replay bool, keepTrace bool, states map[uint64]
 			sim.Go(i, func() { r.caller(i) })
 			if d.Scheds[i].CancelMode == CancelExternal {
 				sim.Go(100+i, func() { r.canceller(i) })
+			}
+			if d.Scheds[i].WaitCtx == 2 {
+				sim.Go(200+i, func() { r.waitCanceller(i) })
 			}
 		}
 		sim.Drive()
